@@ -195,6 +195,56 @@ theorem spec_getElem (k : Key) (p : Nat) (d : Bytes) (i : Nat) (h : i < d.length
       rw [ih (p + 1) i (by simpa using h)]
       congr 3; omega
 
+/-! ### the same facts for each real masker (corollaries through `*_eq_spec`) -/
+
+theorem processAll_congr (f g : Key → Nat → Bytes → Bytes × Nat) (h : ∀ k p d, f k p d = g k p d) (k : Key) :
+    ∀ (cs : List Bytes) (p : Nat), processAll f k p cs = processAll g k p cs := by
+  intro cs
+  induction cs with
+  | nil => intro p; rfl
+  | cons c cs ih => intro p; simp only [processAll, h, ih]
+
+/-- `XorMaskerSimple`: pointer, involution, any chunking -/
+theorem simple_laws (k : Key) (p : Nat) (d : Bytes) (cs : List Bytes) :
+    (simple k p d).2 = p + d.length ∧ (simple k p (simple k p d).1).1 = d ∧
+    ((processAll simple k p cs).1.flatten, (processAll simple k p cs).2) = simple k p cs.flatten := by
+  refine ⟨by rw [simple_eq_spec]; rfl, by rw [simple_eq_spec, simple_eq_spec]; exact involutive k p d, ?_⟩
+  rw [processAll_congr simple spec simple_eq_spec, simple_eq_spec]; exact chunking_irrelevant k p cs
+
+/-- `XorMaskerShifted1` -/
+theorem shifted1_laws (k : Key) (p : Nat) (d : Bytes) (cs : List Bytes) :
+    (shifted1 k p d).2 = p + d.length ∧ (shifted1 k p (shifted1 k p d).1).1 = d ∧
+    ((processAll shifted1 k p cs).1.flatten, (processAll shifted1 k p cs).2) = shifted1 k p cs.flatten := by
+  refine ⟨by rw [shifted1_eq_spec]; rfl, by rw [shifted1_eq_spec, shifted1_eq_spec]; exact involutive k p d, ?_⟩
+  rw [processAll_congr shifted1 spec shifted1_eq_spec, shifted1_eq_spec]; exact chunking_irrelevant k p cs
+
+/-- the NVX SSE2 masker, with a DIFFERENT buffer alignment for every chunk (`aligns`; missing entries read as 0) -/
+def processAllSse2 (k : Key) : Nat → List Nat → List Bytes → List Bytes × Nat
+  | p, _, [] => ([], p)
+  | p, as, c :: cs =>
+    let r := sse2 k p (as.headD 0) c
+    let rs := processAllSse2 k r.2 as.tail cs
+    (r.1 :: rs.1, rs.2)
+
+theorem sse2_laws (k : Key) (p align align2 : Nat) (d : Bytes) :
+    (sse2 k p align d).2 = p + d.length ∧ (sse2 k p align2 (sse2 k p align d).1).1 = d := by
+  refine ⟨by rw [sse2_eq_spec]; rfl, by rw [sse2_eq_spec, sse2_eq_spec]; exact involutive k p d⟩
+
+theorem sse2_chunking_irrelevant (k : Key) (cs : List Bytes) :
+    ∀ (p : Nat) (as : List Nat) (align : Nat),
+      ((processAllSse2 k p as cs).1.flatten, (processAllSse2 k p as cs).2) = sse2 k p align cs.flatten := by
+  induction cs with
+  | nil => intro p as align; rw [sse2_eq_spec]; simp [processAllSse2, spec, specBytes]
+  | cons c cs ih =>
+    intro p as align
+    have h := ih (sse2 k p (as.headD 0) c).2 as.tail align
+    simp only [processAllSse2, List.flatten_cons]
+    rw [Prod.mk.injEq] at h ⊢
+    rw [h.1, h.2]
+    simp only [sse2_eq_spec]
+    have := process_append k p c cs.flatten
+    exact ⟨this.1.symm, this.2.symm⟩
+
 /-! non-vacuity: concrete instances -/
 example : sse2 ⟨1, 2, 3, 4⟩ 1 5 ((List.range 40).map UInt8.ofNat)
     = spec ⟨1, 2, 3, 4⟩ 1 ((List.range 40).map UInt8.ofNat) := by decide
